@@ -11,7 +11,7 @@ PROPS = {}
 def dyn_prop(pid, **kw):
     PROPS[pid] = dict(module=check_dyn, sizes=DYN_SIZES, coq_sample={"quick": 24, "thorough": 200},
                       search_rounds={"quick": 3, "thorough": 10},
-                      explore={"quick": (12, 250), "thorough": (40, 1200)}, **kw)
+                      explore={"quick": (12, 160), "thorough": (40, 1200)}, **kw)
 
 
 dyn_prop("C01", resync_fields={"state", "success"})
